@@ -46,7 +46,7 @@ FP = {
     ],
     "onnxscript/rewriter/rules/common/_basic_rules.py": [
         "Flatten2Reshape.check", "Flatten2Reshape.rewrite", "ExpandIdentity.check", "SqueezeReshape.pattern", "SqueezeReshape.check",
-        "SqueezeReshape.rewrite",
+        "SqueezeReshape.rewrite", "ReshapeReshape.pattern", "ReshapeReshape.check", "ReshapeReshape.rewrite",
     ],
 }
 
@@ -233,6 +233,66 @@ def search_helper_counterexample(kind, args, real_answer):
                     if o1 != np_bcast(lx, ly):
                         return {"binding": sg, "unnamed": unn, "expand_input": lx, "other": ly, "expand_target": le,
                                 "why": f"{op} with the Expand on operand {side}: original result shape {o1}, rewritten {np_bcast(lx, ly)}"}
+        if kind == "expandIdentityRule" and real_answer == "T":
+            x, t = args
+            if x is not None and t is not None:
+                for sig, unn in _bindings_for([x]):
+                    lx = _conc(x, sig, iter(unn))
+                    lo = np_bcast(lx, t)
+                    if lo != lx:
+                        return {"binding": sig, "unnamed": unn, "input_shape": lx,
+                                "why": f"Expand(x:{lx}, {t}) has shape {lo} but is replaced by Identity(x)"}
+        if kind == "evConcat" and (real_answer.startswith("identity:") or real_answer.startswith("concat:")):
+            axis, ins = args
+            shapes = [t for t, _ in ins]
+            keep = [int(v) for v in real_answer.split(":")[1].split(",")] if real_answer.split(":")[1] else []
+            if axis is not None and len(ins) > 1 and all(t is not None for t in shapes) and len({len(t) for t in shapes}) == 1:
+                r = len(shapes[0])
+                a = axis + r if axis < 0 else axis
+                if 0 <= a < r and all(t[:a] + t[a + 1:] == shapes[0][:a] + shapes[0][a + 1:] for t in shapes):
+                    for sig, unn in _bindings_for(shapes, limit=100):
+                        it = iter(unn)
+                        ls = [_conc(t, sig, it) for t in shapes]
+                        full = sum(l[a] for l in ls)
+                        kept = sum(ls[k][a] for k in keep)
+                        if full != kept:
+                            return {"binding": sig, "unnamed": unn, "operand_shapes": ls,
+                                    "why": f"Concat(axis={axis}) of {ls} has extent {full} on the concat axis; after dropping operands "
+                                           f"{[k for k in range(len(ls)) if k not in keep]} it has {kept}"}
+        if kind == "ruleReshapeReshape" and real_answer not in ("N", "RAISE") and not real_answer.startswith("EXC"):
+            shape, out, az = args
+            tt, aa = real_answer.split(" ")
+            tgt, az2 = H.dec_oints(tt), aa == "az1"
+            if shape is not None:
+                import itertools
+
+                for r in (1, 2, 3):
+                    for mid in itertools.product([0, 1, 2, 3, 4, 6, 7], repeat=r):
+                        mid = list(mid)
+                        res = H.spec_reshape(mid, shape, az == 1)
+                        if res is None:
+                            continue
+                        sig = {}
+                        if out is not None:
+                            if len(out) != len(res):
+                                continue
+                            ok = True
+                            for d, v in zip(out, res):
+                                if isinstance(d, str):
+                                    ok = ok and sig.setdefault(d, v) == v
+                                elif d is not None:
+                                    ok = ok and d == v
+                            if not ok:
+                                continue
+                        P = 1
+                        for d in mid:
+                            P *= d
+                        for inp in ([P], list(reversed(mid)), [1] + mid, mid + [1], mid):
+                            got = H.spec_reshape(inp, tgt, az2)
+                            if got != res:
+                                return {"binding": sig, "unnamed": [], "x_shape": inp, "intermediate_shape": mid,
+                                        "why": f"Reshape(Reshape(x:{inp}, ->{mid}), {shape}, allowzero={az}) gives {res}; the rewritten "
+                                               f"Reshape(x, {tgt}, allowzero={int(az2)}) gives {got}"}
         if kind == "expandRemovable" and real_answer in ("ok1", "ok2", "ok3"):
             x, y, const, eo, bo = args
             if pred_d23(real_answer, x, y, eo, bo) or pred_d24(real_answer, x, y, const, eo):
@@ -328,6 +388,10 @@ def run_helpers(run, drv, R, n, stats, problems):
         stats["k_" + kind] += 1
         if r != mm:
             problems.append({"kind": kind, "line": line, "impl": r, "model": mm})
+        if kind == "ruleReshapeReshape":
+            for lab in H.rr_branches(line, mm):
+                stats["br_" + lab] += 1
+            continue
         stats["br_" + H.branch_of(kind, mm)] += 1
     return cases
 
@@ -364,6 +428,14 @@ def parse_line_args(line):
         return kind, (dec_shape(t[1]), dec_shape(t[2]))
     if kind == "dimsSuff":
         return kind, (dec_shape(t[1]), dec_shape(t[2]), dec_shape(t[3]))
+    if kind == "expandIdentityRule":
+        return kind, (dec_shape(t[1]), H.dec_oints(t[2]))
+    if kind == "evConcat":
+        ax = None if t[1] == "N" else int(t[1])
+        rest = t[2:]
+        return kind, (ax, [(dec_shape(rest[i]), dec_shape(rest[i + 1])) for i in range(0, len(rest), 2)])
+    if kind == "reshapeReshape":
+        return "ruleReshapeReshape", (H.dec_oints(t[1]), H.dec_oshape(t[2]), int(t[3]))
     return kind, None
 
 
@@ -882,7 +954,20 @@ def main(run: core.Run) -> None:
             "evConcat:sym", "evReshape:T", "evExpand:T", "evAbs:F", "materialize:some", "flatten:some", "flatten:N",
             "ruleScatterDyn:T", "ruleScatterDyn:F", "expandRemovable:rank1", "expandRemovable:rank2",
             "ruleScatterStatic:T", "ruleScatterStatic:F", "ruleCollapseSlice1:T", "ruleCollapseSlice1:F", "ruleCollapseSlice2:T",
-            "ruleCollapseSlice2:F", "ruleSqueezeReshape:T", "ruleSqueezeReshape:F", "getShapeValue:N", "getShapeValue:some", "spec_gather:N", "spec_gather:some", "ruleNoOp:T", "ruleNoOp:F"]
+            "ruleCollapseSlice2:F", "ruleSqueezeReshape:T", "ruleSqueezeReshape:F", "getShapeValue:N", "getShapeValue:some", "spec_gather:N", "spec_gather:some", "ruleNoOp:T", "ruleNoOp:F",
+            # missing shape / no information / negative-answer branches of every modelled function (each >= 40 hits per quick run)
+            "expandRemovable:noshapes", "expandRemovable:noinfo", "evShape:none", "evShape:const", "evShape:symonly", "evSize:none", "evSize:const",
+            "evSqueeze:N", "evSqueeze:sym", "evIdentity:N", "evIdentity:sym", "getDim:N", "getDim:some", "materialize:N", "evGather:none",
+            "evGather:const", "evGather:symonly", "evAdd:N", "evAdd:int", "evAdd:sym", "evConcat:none", "evConcat:identity", "evAbs:T",
+            "evExpand:F", "evReshape:F", "bcastDim:N", "bcastDim:some", "bcastShape:N", "bcastShape:some", "sameDim:T", "sameDim:F",
+            "sameShape:T", "sameShape:F", "sameShapeFold:T", "sameShapeFold:F", "merge:some", "expandIdentityRule:T", "expandIdentityRule:F",
+            "ruleExpandBinary:side0:fired", "ruleExpandBinary:side0:no", "ruleExpandBinary:side1:fired", "ruleExpandBinary:side1:no",
+            "spec_reshape:N", "spec_reshape:some", "spec_broadcast:N", "spec_broadcast:some", "spec_expand_ort:N", "spec_expand_ort:some",
+            "expandIdentityRule:target_lead1", "expandIdentityRule:target_ones", "evConcat:zero_other_axis",
+            "ruleReshapeReshape:N:notconst", "ruleReshapeReshape:out_known", "ruleReshapeReshape:out_none", "ruleReshapeReshape:upd:zero",
+            "ruleReshapeReshape:upd:neg", "ruleReshapeReshape:RAISE", "ruleReshapeReshape:out_short", "ruleReshapeReshape:az1",
+            "ruleReshapeReshape:az1_nozero", "ruleReshapeReshape:N:zero_and_neg", "ruleReshapeReshape:N:two_zeros",
+            "ruleReshapeReshape:az0:zero2neg", "ruleReshapeReshape:az0:plain"]
     missing = [b for b in need if branches.get(b, 0) == 0]
     if missing and not run.violations:
         raise core.Infra(f"generator degenerated: branches never hit: {missing}")
